@@ -218,6 +218,65 @@ def check_arraylike(case):
     return None
 
 
+ARRAY_OF_CONNECTED = [(first, mul, then) for first in ("sig", "bit", "ref", "bref") for mul in ("inst*2", "2*inst", "inst*1")
+                      for then in (None, "setattr", "connect", "replace", "call", "disconnect-connect")]
+
+
+def check_array_of_connected(case):
+    """an Instance that already HAS its connections (to a signal, a bit, another instance's port, a bundle member) is
+    turned into an array with `*`; the array's port is then left alone or connected again in each way: what is built is
+    the last connection made, on every element"""
+    import hdl21 as h
+    first, mul, then = case
+    w = {"array_of_connected_case": repr(case)}
+
+    @h.bundle
+    class AcBu:
+        x, y = h.Signals(2)
+    m = h.Module(name="ArrOfConn")
+    m.s1, m.s2, m.s3, m.t = h.Signals(4)
+    m.bus = h.Signal(width=4)
+    m.bu = AcBu()
+    m.other = h.R(r=2)(p=m.s2, n=m.t)
+    c0 = {"sig": lambda: m.s1, "bit": lambda: m.bus[1], "ref": lambda: m.other.p, "bref": lambda: m.bu.x}[first]()
+    want = {"sig": "s1", "bit": ("bus", 1, 1), "ref": "s2", "bref": "bu_x"}[first]
+    try:
+        inst = h.R(r=1)(p=c0, n=m.t)
+        m.arr = {"inst*2": lambda: inst * 2, "2*inst": lambda: 2 * inst, "inst*1": lambda: inst * 1}[mul]()
+        if then == "setattr":
+            m.arr.p = m.s3
+        elif then == "connect":
+            m.arr.connect("p", m.s3)
+        elif then == "replace":
+            m.arr.replace("p", m.s3)
+        elif then == "call":
+            m.arr(p=m.s3)
+        elif then == "disconnect-connect":
+            m.arr.disconnect("p")
+            m.arr.connect("p", m.s3)
+        if then:
+            want = "s3"
+            if m.arr.conns.get("p") is not m.s3:
+                return ("array-of-connected.view", f"{case!r}: conns['p'] is {m.arr.conns.get('p')!r}", w)
+        pkg = h.to_proto(m)
+    except Exception as e:
+        return (f"array-of-connected.raises.{type(e).__name__}", f"{case!r}: {type(e).__name__}: {str(e)[:140]}", w)
+    pm = [x for x in pkg.modules if x.name.endswith("ArrOfConn")][0]
+    n = 1 if mul == "inst*1" else 2
+    elems = [i for i in pm.instances if i.name.startswith("arr")]
+    if len(elems) != n:
+        return ("array-of-connected.elements", f"{case!r}: {len(elems)} elements built, {n} wanted", w)
+    for i_ in elems:
+        got = {}
+        for c_ in i_.connections:
+            t_ = c_.target
+            k = t_.WhichOneof("stype")
+            got[c_.portname] = t_.sig if k == "sig" else (t_.slice.signal, t_.slice.top, t_.slice.bot) if k == "slice" else k
+        if got.get("p") != want or got.get("n") != "t":
+            return ("array-of-connected.built", f"{case!r}: {i_.name} is built on {got}, wanted p on {want} and n on t", w)
+    return None
+
+
 OPEN_CASES = [(target, how, first) for target in ("instance", "array") for how in ("call", "setattr", "connect", "replaced-then")
               for first in ("sig", "bit", "cat", "noconn", "ref", "bref")]
 
@@ -522,6 +581,11 @@ def run(ctx):
                          "connect(), then re-connected (n first) by call, assignment, connect() or replace(): conns holds the "
                          "last connection, the array keeps its size, and nothing is built on the replaced signals",
                     bound="4 targets x 3 x 4 ways", key_of=repr)
+    ctx.run_bounded("array-of-connected-instance", ARRAY_OF_CONNECTED, check_array_of_connected,
+                    rule="an instance already connected to a signal, bit, port reference or bundle member is made an array with "
+                         "`*` (either side, n = 2, 1); its port is left alone or connected again by assignment, connect(), "
+                         "replace(), call, or disconnect-then-connect: every element is built on the last connection made",
+                    bound="4 first connections x 3 products x 6 continuations", key_of=repr)
     ctx.run_bounded("open-after-disconnect", OPEN_CASES, check_open_after_disconnect,
                     rule="a port of an instance / array connected by call, assignment, connect() or replace() to a signal, bit, "
                          "concatenation, no-connect, port reference or bundle member, then disconnected and left open: the design "
@@ -547,6 +611,10 @@ def replay(payload):
         return 1 if r else 0
     if "arraylike_case" in inp:
         r = check_arraylike(eval(inp["arraylike_case"]))
+        print("replay:", r)
+        return 1 if r else 0
+    if "array_of_connected_case" in inp:
+        r = check_array_of_connected(eval(inp["array_of_connected_case"]))
         print("replay:", r)
         return 1 if r else 0
     if "open_case" in inp:
